@@ -15,7 +15,7 @@ from .common import (Vals, z_leap, z_yd, z_D, z_M, z_md, z_N, I, N_MIN, N_1900, 
 
 MANIFEST_ENTRY = {
     'category': 'proof',
-    'text': 'date.py and the date conversions/arithmetic of the value classes and natives are proved against the closed-form Gregorian day number for every date 0001..9999 and every integer offset (loop invariants, z3); time of day through IEEE doubles is covered by a bounded enumeration on the real code; date - date with times of day is the whole number of days nearest to the exact difference, exactly the difference of the day numbers for equal times of day (over the error bound proved for to_oa_date); all dates 0001-01-01 .. 9999-12-31; day numbers and dates of the first/last day and the end of February of every year 1..9999 (thorough: every day) against the host calendar (bounded)',
+    'text': 'date.py and the date conversions/arithmetic of the value classes and natives are proved against the closed-form Gregorian day number for every date 0001..9999 and every integer offset (loop invariants, z3); time of day through IEEE doubles is covered by a bounded enumeration on the real code; date - date with times of day is the whole number of days nearest to the exact difference, exactly the difference of the day numbers for equal times of day (over the error bound proved for to_oa_date); all dates 0001-01-01 .. 9999-12-31; day numbers and dates of the first/last day and the end of February of every year 1..9999 (thorough: every day) against the host calendar (bounded); date(decimal) hands the decimal\'s own day number to to_date unchanged; date(decimal(d)) == d and (d + n) - n == d through the language with times of day before and after 1899-12-30 (bounded)',
     'note': 'IEEE doubles idealised (rnd model); datetime.replace trusted; VC generator trusted (canaries on every run)',
     'technique': 'deductive verification: pyvc VCs from the real AST + z3/cvc5; bounded enumeration for float time-of-day',
 }
